@@ -13,7 +13,7 @@
    NOT PROVED: that equality of two invocations persists through rebuild, that slot sets only shrink,
    and the direction of the live-class / slot / symmetry components.  These are decided per run, after
    every operation, on the implementation and against the model. *)
-From SE Require Import EGraph.Model EGraph.ModelMachine EGraph.ModelFacts EGraph.UnionFindFacts EGraph.InvariantFacts EGraph.UnionInvariantFacts EGraph.AddCoversFacts.
+From SE Require Import EGraph.Model EGraph.ModelMachine EGraph.ModelFacts EGraph.UnionFindFacts EGraph.InvariantFacts EGraph.UnionInvariantFacts EGraph.AddCoversFacts EGraph.MonotoneFacts.
 From Coq Require Import Lia.
 
 Theorem C13_add_alloc_monotone : forall t s a s', add_expr t s = Ok (a, s') ->
@@ -127,3 +127,25 @@ Theorem C13_handles_equivalence : forall terms ops hs s,
      eg_eq s a b = Ok true -> eg_eq s b c = Ok true -> eg_eq s a c = Ok true).
 Proof. exact reachable_handles_equivalence. Qed.
 Print Assumptions C13_handles_equivalence.
+
+(* EQUALITIES ARE NEVER LOST (EGraph/MonotoneFacts.v) - the property itself, on the model, for every history:
+   whatever compared equal after a prefix of the history compares equal after the whole history; all handles of
+   the prefix are still handles (same positions) and still cover their classes; and the slot set of a
+   canonicalised invocation only shrinks.  Proved through add_expr, eg_union and the whole of rebuild (move_to and
+   shrink_slots as wholes: their single table writes are NOT monotone - counterexamples in MonotoneFacts.v). *)
+Theorem C13_equalities_never_lost : forall terms ops1 ops2 hs1 s1 hs s,
+  run_ops terms ops1 [] empty_egraph = Ok (hs1, s1) ->
+  run_ops terms (ops1 ++ ops2) [] empty_egraph = Ok (hs, s) ->
+  (exists more, hs = (hs1 ++ more)%list) /\
+  (forall a, List.In a hs1 -> covers s1 a /\ covers s a) /\
+  (forall a b, covers s1 a -> covers s1 b -> eg_eq s1 a b = Ok true -> eg_eq s a b = Ok true) /\
+  (forall a b, List.In a hs1 -> List.In b hs1 -> eg_eq s1 a b = Ok true -> eg_eq s a b = Ok true).
+Proof. exact eq_persists_history. Qed.
+Print Assumptions C13_equalities_never_lost.
+
+Theorem C13_slots_only_shrink : forall terms ops hs s hs' s' a a' a'',
+  inv3 s -> List.Forall (covers s) hs -> run_ops terms ops hs s = Ok (hs', s') ->
+  covers s a -> find_applied_id s a = Ok a' -> find_applied_id s' a = Ok a'' ->
+  List.incl (values (am a'')) (values (am a')).
+Proof. exact slots_only_shrink_run. Qed.
+Print Assumptions C13_slots_only_shrink.
